@@ -351,7 +351,7 @@ namespace vf
                 size_t eol = err.find('\n', pos);
                 std::string line = err.substr(pos + 4, (eol == std::string::npos ? err.size() : eol) - pos - 4);
                 size_t rp = line.find("/repo/src/ompl/");
-                if (rp != std::string::npos)
+                if (rp != std::string::npos && line.compare(0, 3, "as<") != 0 && line.compare(0, 3, "as ") != 0)
                 {
                     std::string fn = line.substr(0, line.find_first_of("(<", 0));
                     while (!fn.empty() && fn.back() == ' ')
